@@ -380,6 +380,12 @@ func c28Edge(edge string, n Name) (Name, error) {
 			return Name{}, err
 		}
 		return NameFromString(s)
+	case "CidB36U":
+		s, err := n.Cid().StringOfBase(mb.Base36Upper)
+		if err != nil {
+			return Name{}, err
+		}
+		return NameFromString(s)
 	case "Cid":
 		return NameFromCid(n.Cid())
 	case "RoutingKey":
